@@ -4,7 +4,7 @@ headers x random firmware-like policies ; TraceBlockExchange judges what the dev
 import json
 import random
 
-from .. import blockx, core, mgr, reqs, tlc
+from .. import blockx, core, enc, mgr, reqs, tlc
 
 BL = [3, 2]
 BR = [[2], []]
@@ -141,6 +141,22 @@ def run(ctx):
         if meta["shutdown"]:
             dbench = blockx.Bench()
     res.coverage["double_fault_requests"] = n_double
+    # advance requests one of whose blocks has no merge-mining proof / coinbase transaction (17 or 18 fields, fine for
+    # an ancestor update): nothing of that block may reach the device
+    n_nocb = 0
+    for i in range(ctx.pick(24, 300)):
+        blocks = reqs.blocks(ctx.rng, 2, True, bro_counts=[0, 0], dup=False)
+        j = i % 2
+        f = enc.header_fields(ctx.rng, ctx.rng.choice([17, 18]))
+        f[-1] = ctx.rng.choice([b"\x00\x00\x00\x20", b"\x01\x00\x00\x00", b"\x04\x00\x00\x00", bytes([ctx.rng.getrandbits(8)]) * 4]) \
+            + bytes(ctx.rng.getrandbits(8) for _ in range(76))
+        blocks[j] = {"fields": f, "cb": b"", "raw": enc.rlp_encode(f), "brothers": []}
+        t, meta = lbench.run(blocks, True, FaithfulBlockPolicy(), ctx.rng, coop=False)
+        t["id"] = len(traces) + 1
+        traces.append(t)
+        info[t["id"]] = dict(meta, src="no-coinbase-block", advance=True, bad=j + 1)
+        n_nocb += 1
+    res.coverage["advance_requests_with_a_block_without_coinbase"] = n_nocb
     # scale: counts that need more than a byte (255 / 256 / 257 blocks in one request, 255 brothers for one block)
     n_scale = 0
     for nb, bro in ((255, None), (256, None), (257, None), (2, [255, 1]), (1, [254])) if ctx.quick else \
